@@ -13,12 +13,14 @@ From V.proofs Require Import BaseP LossyRtP DeriveP CodecsP TypedCodecP TypedCan
 
 Lemma ext_stable_nil E pr pa ll : ext_stable E pr pa ll [].
 Proof. intros i x e []. Qed.
+Lemma ext_stable_on_nil E pr pa G ll : ext_stable_on E pr pa G ll [].
+Proof. intros i x e []. Qed.
 
 (* a reader that prints back exactly the text it read *)
 Lemma ext_stable_canonical E (pr : N -> E -> str) (pa : N -> str -> option E) ll ids :
   (forall i x e, In i ids -> pa i x = Some e -> pr i e = x) -> ext_stable E pr pa ll ids.
 Proof.
-  intros H i x e Hi Hx Hp. rewrite (H i x e Hi Hp). split; [apply (dom_canon _ _ Hx)|]. rewrite (rr_dom _ _ Hx). exact Hp.
+  intros H i x e Hi _ Hx Hp. rewrite (H i x e Hi Hp). split; [apply (dom_pcanon _ _ Hx)|]. rewrite (rr_dom _ _ Hx). exact Hp.
 Qed.
 
 (* the generated tables: which external codecs the structs use *)
